@@ -166,10 +166,22 @@ func (e *Exec) Generate() (err error) {
 				rvars[k] = v
 			}
 		}
+		// contents of byte-slice results at this return (compared by replays)
+		resSeqs := map[int]*SeqV{}
+		for k, rv := range r.vals {
+			if sv, ok := rv.(*SliceV); ok {
+				if w, _, isInt := intInfo(sv.Elem); isInt && w == 8 {
+					func() {
+						defer func() { recover() }()
+						resSeqs[k] = e.sliceSeq(r.st, sv)
+					}()
+				}
+			}
+		}
 		for _, en := range spec.Ensures {
 			t := e.evalSpecBool(en, rvars, r.st, e.entry, "ensures")
 			lbl := clauseLabel(en)
-			o := &Obligation{Func: e.fnName, Kind: "post", Label: fmt.Sprintf("%s@ret%d", lbl, i), Guard: r.st.guard, Goal: t, Facts: r.st.facts, InFunc: fn.String(), Results: r.vals, Recs: r.st.recs}
+			o := &Obligation{Func: e.fnName, Kind: "post", Label: fmt.Sprintf("%s@ret%d", lbl, i), Guard: r.st.guard, Goal: t, Facts: r.st.facts, InFunc: fn.String(), Results: r.vals, Recs: r.st.recs, ResSeqs: resSeqs}
 			o.Pos = e.Prog.Fset.Position(r.pos)
 			o.Cands = append(o.Cands, e.cands...)
 			if !t.IsTrue() {
@@ -208,6 +220,66 @@ type qelim struct {
 	apps   map[string][]*smt.Term // ground applications by function name (E-matching)
 	strict bool
 	bmemo  map[int]bool
+	// matching-loop guard: skolems created while instantiating a universal
+	// (the witness of `forall k. P(k) ==> exists k2. Q(k2)` for one k) are not
+	// used to instantiate universals that create skolems themselves; only
+	// skolem-free universals (e.g. a refuted existential goal) see them
+	depth  int
+	inGoal bool // the formula being processed is the negated goal: its skolems are never restricted
+	instCount map[int]int
+	instTerm  map[int]*smt.Term
+	instSk  map[int]int // skolem id -> generation
+	genMemo map[int]int
+	curGen  int
+	prMemo  map[int]bool
+}
+
+// skGen: the highest generation of a hypothesis-instance skolem occurring in t
+// (0: none).  A skolem created inside the instance of a universal at terms of
+// generation g has generation g+1.
+func (q *qelim) skGen(t *smt.Term) int {
+	if len(q.instSk) == 0 {
+		return 0
+	}
+	if r, ok := q.genMemo[t.ID]; ok {
+		return r
+	}
+	r := q.instSk[t.ID]
+	for _, a := range t.Args {
+		if g := q.skGen(a); g > r {
+			r = g
+		}
+	}
+	q.genMemo[t.ID] = r
+	return r
+}
+
+// maxSkolemGen: universals that create skolems are instantiated with terms up
+// to this generation (matching-loop guard).
+const maxSkolemGen = 1
+
+// producesSkolems: instantiating t (read with polarity pos) creates skolems.
+func producesSkolems(t *smt.Term, pos bool) bool {
+	if !smt.HasQuant(t) {
+		return false
+	}
+	switch t.Op {
+	case "not":
+		return producesSkolems(t.Args[0], !pos)
+	case "and", "or":
+		for _, a := range t.Args {
+			if producesSkolems(a, pos) {
+				return true
+			}
+		}
+		return false
+	case "forall", "exists":
+		if (t.Op == "forall") != pos {
+			return true
+		}
+		return producesSkolems(t.Args[0], pos)
+	}
+	return true // ite / = over quantified formulas: both polarities
 }
 
 // collectApps indexes the ground uninterpreted applications of t.
@@ -338,6 +410,13 @@ func (q *qelim) nnf(t *smt.Term, pos bool) *smt.Term {
 					s := c.Fresh("sk_"+strings.TrimPrefix(v.Name, "?"), v.Sort)
 					sk = append(sk, s)
 					q.newSk = append(q.newSk, s)
+					if q.depth > 0 && !q.inGoal {
+						if q.instSk == nil {
+							q.instSk = map[int]int{}
+						}
+						q.instSk[s.ID] = q.curGen + 1
+						q.genMemo = map[int]int{}
+					}
 				}
 				q.skolem[t.ID] = sk
 			}
@@ -349,6 +428,14 @@ func (q *qelim) nnf(t *smt.Term, pos bool) *smt.Term {
 		}
 		// instantiate with all candidate tuples
 		var parts []*smt.Term
+		producer, known := q.prMemo[t.ID]
+		if !known {
+			producer = producesSkolems(t.Args[0], pos)
+			if q.prMemo == nil {
+				q.prMemo = map[int]bool{}
+			}
+			q.prMemo[t.ID] = producer
+		}
 		var rec func(i int, m map[*smt.Term]*smt.Term)
 		rec = func(i int, m map[*smt.Term]*smt.Term) {
 			if q.budget <= 0 {
@@ -356,7 +443,20 @@ func (q *qelim) nnf(t *smt.Term, pos bool) *smt.Term {
 			}
 			if i == len(t.Vars) {
 				q.budget--
+				if q.instCount != nil {
+					q.instCount[t.ID]++
+					q.instTerm[t.ID] = t
+				}
+				q.depth++
+				saved := q.curGen
+				for _, x := range m {
+					if g := q.skGen(x); g > q.curGen {
+						q.curGen = g
+					}
+				}
 				parts = append(parts, q.nnf(c.Subst(t.Args[0], m), pos))
+				q.curGen = saved
+				q.depth--
 				return
 			}
 			// candidates: E-matching against ground applications, plus the
@@ -383,6 +483,9 @@ func (q *qelim) nnf(t *smt.Term, pos bool) *smt.Term {
 			}
 			for _, cand := range cset {
 				if cand.Sort != t.Vars[i].Sort {
+					continue
+				}
+				if producer && os.Getenv("GOVC_NOGUARD") == "" && q.skGen(cand) > maxSkolemGen {
 					continue
 				}
 				m2 := map[*smt.Term]*smt.Term{}
@@ -587,7 +690,7 @@ func (e *Exec) EmitMode(o *Obligation, strict bool) []*smt.Term {
 				changed = true
 			}
 		}
-		q := &qelim{c: c, skolem: map[int][]*smt.Term{}, apps: map[string][]*smt.Term{}, bmemo: map[int]bool{}, strict: strict}
+		q := &qelim{c: c, skolem: map[int][]*smt.Term{}, apps: map[string][]*smt.Term{}, bmemo: map[int]bool{}, strict: strict, genMemo: map[int]int{}}
 		seen := map[*smt.Term]bool{}
 		var small []*smt.Term
 		if e.SmallLen > 0 {
@@ -615,6 +718,9 @@ func (e *Exec) EmitMode(o *Obligation, strict bool) []*smt.Term {
 		for round := 0; round < maxRounds; round++ {
 			q.newSk = nil
 			q.budget = 6000
+			if os.Getenv("GOVC_DEBUG") == "2" {
+				q.instCount, q.instTerm = map[int]int{}, map[int]*smt.Term{}
+			}
 			// ground terms known so far: the raw formulas plus the previous round's instances
 			q.apps = map[string][]*smt.Term{}
 			seenA := map[int]bool{}
@@ -629,11 +735,25 @@ func (e *Exec) EmitMode(o *Obligation, strict bool) []*smt.Term {
 			}
 			prevSize = len(seenA)
 			out = nil
-			for _, t := range raw {
+			for ri, t := range raw {
+				q.inGoal = !o.Cover && ri == len(raw)-1
 				out = append(out, q.nnf(t, true))
+				q.inGoal = false
 			}
 			if os.Getenv("GOVC_DEBUG") != "" {
 				fmt.Fprintf(os.Stderr, "  round %d strict=%v: budget left %d, skolems %d, cands %d\n", round, strict, q.budget, len(q.newSk), len(q.cands))
+				if os.Getenv("GOVC_DEBUG") == "2" {
+					fmt.Fprintf(os.Stderr, "    %d quantifiers instantiated\n", len(q.instCount))
+					for id, n := range q.instCount {
+						if n > 40 {
+							str := q.instTerm[id].String()
+							if len(str) > 300 {
+								str = str[:300]
+							}
+							fmt.Fprintf(os.Stderr, "    %d instances of %s\n", n, str)
+						}
+					}
+				}
 			}
 			// index terms at which the (skolemised) goal reads a local array are
 			// candidates for the next rounds: a statement about "the slot this
